@@ -33,15 +33,15 @@ func init() {
 				}
 				mp(P, R, "C10.a", kUpdVerify+":signature", "nil error => update.SignedAccumulator.UnmarshalVerify(pk) returned nil", fn, AcceptNilErr(1), &MustPass{Match: func(a Atom) bool {
 					c, idx := callAndResult(a.V)
-					return c != nil && calleeIs(c, kSaccVerify) && idx == 1 && a.Want == Nil && desc(c.Call.Args[0]) == "<revocation.Update>.SignedAccumulator" && desc(c.Call.Args[1]) == pkD
+					return c != nil && calleeIs(c, kSaccVerify) && idx == 1 && a.Want == Nil && desc(callArgs(c)[0]) == "<revocation.Update>.SignedAccumulator" && desc(callArgs(c)[1]) == pkD
 				}})
 				mp(P, R, "C10.a", kUpdVerify+":chain", "nil error => EventList.Verify(acc) returned nil for NewEventList(update.Events...) and the verified accumulator", fn, AcceptNilErr(1), &MustPass{Match: func(a Atom) bool {
 					c, _ := callAndResult(a.V)
 					if c == nil || !calleeIs(c, kELVerify) || a.Want != Nil {
 						return false
 					}
-					return desc(c.Call.Args[0]) == "call:revocation.NewEventList(<revocation.Update>.Events)" &&
-						desc(c.Call.Args[1]) == "call:"+kSaccVerify+"(<revocation.Update>.SignedAccumulator,"+pkD+")#0"
+					return desc(callArgs(c)[0]) == "call:revocation.NewEventList(<revocation.Update>.Events)" &&
+						desc(callArgs(c)[1]) == "call:"+kSaccVerify+"(<revocation.Update>.SignedAccumulator,"+pkD+")#0"
 				}})
 				if ne := mustFunc(P, R, "C10.a", "revocation.NewEventList"); ne != nil {
 					fs := litFieldStores(ne, "new:revocation.EventList")
@@ -75,15 +75,15 @@ func init() {
 						n++
 						key := FuncKey(fn)
 						R.seen(key)
-						requireDeps(P, R, "C10.e", key, fn, []ssa.Value{sum.Call.Args[0]}, 3, []depReq{
+						requireDeps(P, R, "C10.e", key, fn, []ssa.Value{callArgs(sum)[0]}, 3, []depReq{
 							{"Index", is("<revocation.Event>.Index"), "position in the chain"},
 							{"ParentHash", is("<revocation.Event>.ParentHash"), "link to the parent"},
 							{"E", is("<revocation.Event>.E"), "revoked value"},
 						})
-						alg := desc(sum.Call.Args[1])
+						alg := desc(callArgs(sum)[1])
 						r := (&MustPass{P: P, Match: func(a Atom) bool {
 							cc, ok := callAtom(a, Nil, "revocation.checkHashAlg")
-							return ok && desc(cc.Call.Args[0]) == alg
+							return ok && desc(callArgs(cc)[0]) == alg
 						}}).MustReach(fn, sum)
 						R.decide("C10.e", key+":alg-whitelisted", "a hash is produced only for a whitelisted algorithm (checkHashAlg of the same algorithm succeeded before multihash.Sum)", r.Holds, r.Path, P.Pos(sum.Pos()))
 					}
@@ -105,7 +105,7 @@ func init() {
 						if c == nil || !calleeIs(c, kELVerify) || a.Want != Nil {
 							return false
 						}
-						return strings.HasPrefix(desc(c.Call.Args[0]), "call:revocation.NewEventList(") && strings.HasSuffix(desc(c.Call.Args[1]), ".SignedAccumulator.Accumulator")
+						return strings.HasPrefix(desc(callArgs(c)[0]), "call:revocation.NewEventList(") && strings.HasSuffix(desc(callArgs(c)[1]), ".SignedAccumulator.Accumulator")
 					}}
 					r := q.MustReach(fn, st)
 					R.decide("C10.f", kPrepend+":verified-before-commit", "the receiver is replaced only after the merged chain verified", r.Holds, r.Path, P.Pos(st.Pos()))
@@ -123,7 +123,7 @@ func init() {
 				}
 				mp(P, R, "C10.j", "revocation.(*Witness).Update:verified-on-every-path", "nil => update.Verify(pk) returned nil", fn, AcceptNilErr(0), &MustPass{Match: func(a Atom) bool {
 					c, idx := callAndResult(a.V)
-					return c != nil && calleeIs(c, "revocation.(*Update).Verify") && idx == 1 && a.Want == Nil && desc(c.Call.Args[0]) == "<revocation.Update>" && desc(c.Call.Args[1]) == pkD
+					return c != nil && calleeIs(c, "revocation.(*Update).Verify") && idx == 1 && a.Want == Nil && desc(callArgs(c)[0]) == "<revocation.Update>" && desc(callArgs(c)[1]) == pkD
 				}})
 			}},
 		Rule{ID: "C10.k", Explain: "the product computed while an event list is decoded is the product of all decoded events: fresh big.NewInt(1) times E of every index from 0.",
@@ -151,10 +151,10 @@ func signedAccumulatorRule(P *Program, R *Report) {
 			if c == nil || !calleeIs(c, kSignedUV) || a.Want != Nil {
 				return false
 			}
-			if desc(c.Call.Args[0]) != pkD+".ECDSA" || desc(c.Call.Args[1]) != saccD+".Data" {
+			if desc(callArgs(c)[0]) != pkD+".ECDSA" || desc(callArgs(c)[1]) != saccD+".Data" {
 				return false
 			}
-			dst = stripConv(c.Call.Args[2])
+			dst = stripConv(callArgs(c)[2])
 			return true
 		}
 		// every store to the cache field
@@ -205,13 +205,13 @@ func signedAccumulatorRule(P *Program, R *Report) {
 	if g := mustFunc(P, R, rule, kSignedUV); g != nil {
 		var decodeDst *ssa.Call
 		for _, c := range callsIn(g) {
-			if isCallTo(c, "github.com/fxamacker/cbor.Unmarshal") && desc(c.Common().Args[1]) == "arg#2" {
+			if isCallTo(c, "github.com/fxamacker/cbor.Unmarshal") && desc(callArgs(c)[1]) == "arg#2" {
 				decodeDst = c.(*ssa.Call)
 			}
 		}
 		ver := func(a Atom) bool {
 			c, _ := callAndResult(a.V)
-			return c != nil && calleeIs(c, kSignedVer) && a.Want == Nil && (desc(c.Call.Args[0]) == "arg#0" || desc(c.Call.Args[0]) == "<crypto/ecdsa.PublicKey>")
+			return c != nil && calleeIs(c, kSignedVer) && a.Want == Nil && (desc(callArgs(c)[0]) == "arg#0" || desc(callArgs(c)[0]) == "<crypto/ecdsa.PublicKey>")
 		}
 		if decodeDst == nil {
 			R.bad(rule, kSignedUV+":decode", "the payload is decoded into the destination", "no cbor.Unmarshal into dst found", P.Pos(g.Pos()))
@@ -225,7 +225,7 @@ func signedAccumulatorRule(P *Program, R *Report) {
 					verCall = c.(*ssa.Call)
 				}
 			}
-			ok := verCall != nil && desc(verCall.Call.Args[1]) == desc(decodeDst.Call.Args[0])
+			ok := verCall != nil && desc(callArgs(verCall)[1]) == desc(callArgs(decodeDst)[0])
 			R.decide(rule, kSignedUV+":same-bytes", "the bytes that are decoded are the bytes whose signature was verified", ok, "", P.Pos(g.Pos()))
 		}
 		mp(P, R, rule, kSignedUV+":nil=>verified", "nil error => Verify(pk, msg, sig) returned nil", g, AcceptNilErr(0), &MustPass{Match: ver})
@@ -236,7 +236,7 @@ func signedAccumulatorRule(P *Program, R *Report) {
 			if !ok {
 				return false
 			}
-			return (desc(c.Call.Args[0]) == "arg#0" || desc(c.Call.Args[0]) == "<crypto/ecdsa.PublicKey>") && dependsOn(P, c.Call.Args[1], func(d string) bool { return strings.HasPrefix(d, "call:crypto/sha256.Sum256(arg#1)") })
+			return (desc(callArgs(c)[0]) == "arg#0" || desc(callArgs(c)[0]) == "<crypto/ecdsa.PublicKey>") && dependsOn(P, callArgs(c)[1], func(d string) bool { return strings.HasPrefix(d, "call:crypto/sha256.Sum256(arg#1)") })
 		}})
 		mp(P, R, rule, kSignedVer+":no-trailing", "nil error => the DER signature had no trailing bytes", v, AcceptNilErr(0), &MustPass{Match: func(a Atom) bool {
 			g, ok := parseGuard(a, nil)
@@ -265,7 +265,7 @@ func eventListVerifyRule(P *Program, R *Report) {
 		if !ok {
 			return false
 		}
-		return desc(c.Call.Args[0]) == ev+"[(len("+ev+")-1)]" && desc(c.Call.Args[1]) == "<revocation.Accumulator>.EventHash"
+		return desc(callArgs(c)[0]) == ev+"[(len("+ev+")-1)]" && desc(callArgs(c)[1]) == "<revocation.Accumulator>.EventHash"
 	}})
 	memo := func(a Atom) bool { return desc(a.V) == elD+".verified" && a.Want == True }
 	exempt := anyOf(empty, memo)
@@ -275,7 +275,7 @@ func eventListVerifyRule(P *Program, R *Report) {
 	}{
 		{"parent-hash", "for every i > 0: events[i-1].hashEquals(events[i].ParentHash) returned nil", func(a Atom) bool {
 			c, ok := hashEqualsCall(P, a)
-			if ok && desc(c.Call.Args[0]) == ev+"[(#i-1)]" && desc(c.Call.Args[1]) == ev+"[#i].ParentHash" {
+			if ok && desc(callArgs(c)[0]) == ev+"[(#i-1)]" && desc(callArgs(c)[1]) == ev+"[#i].ParentHash" {
 				return true
 			}
 			// i == 0 has no parent inside the list
@@ -421,7 +421,7 @@ func hashEqualsMatch(a Atom) bool {
 		return false
 	}
 	// (a hash obtained from a helper is named by what the helper returns: multihash.Sum of the event's bytes)
-	x, y := descNN(c.Call.Args[0]), descNN(c.Call.Args[1])
+	x, y := descNN(callArgs(c)[0]), descNN(callArgs(c)[1])
 	fresh := func(d string) bool {
 		if !strings.HasSuffix(d, "#0") {
 			return false
@@ -472,7 +472,7 @@ func decodedProductRule(P *Program, R *Report, rule string) {
 		c, isCall := st.Val.(*ssa.Call)
 		one := false
 		if isCall && isCallTo(c, "big.NewInt") {
-			if k, ok := constInt(c.Call.Args[0]); ok && k == 1 {
+			if k, ok := constInt(callArgs(c)[0]); ok && k == 1 {
 				one = true
 			}
 		}
@@ -486,10 +486,10 @@ func decodedProductRule(P *Program, R *Report, rule string) {
 	deepVisit(P, fn, 1, func(g *ssa.Function) {
 		for _, ci := range callsIn(g) {
 			c, isCall := ci.(*ssa.Call)
-			if !isCall || bigMethod(c) != "Mul" || desc(c.Call.Args[0]) != prodD || desc(c.Call.Args[1]) != prodD {
+			if !isCall || bigMethod(c) != "Mul" || desc(callArgs(c)[0]) != prodD || desc(callArgs(c)[1]) != prodD {
 				continue
 			}
-			fd := desc(c.Call.Args[2])
+			fd := desc(callArgs(c)[2])
 			if !(strings.HasSuffix(fd, ".E[#i]") || strings.HasSuffix(fd, ".Events[#i].E") || fd == "new:revocation.Event.E") {
 				detail = "multiplied by " + fd
 				continue
